@@ -132,7 +132,7 @@ def run_case(case, tier, known):
          "clauses": {}, "paths": 0, "error": None, "undecided_reason": None,
          "functions": {}, "lib_used": [], "notes": [], "samples": [], "cover": "ok",
          "replay_kind": case.replay_kind, "assumptions": case.assumptions,
-         "bounded": case.bounded}
+         "bounded": case.bounded, "native_probes": []}
   L.USED.clear()
   L.PRECISE_TIES[0] = bool(getattr(case, "precise_ties", False))
   try:
@@ -161,6 +161,10 @@ def run_case(case, tier, known):
       else:
         per_path.append((p, p.value))
       res["notes"].extend(p.notes)
+      if p.outcome == "return" and p.value is not None and p.value.info.get("native_probes"):
+        for pr in p.value.info["native_probes"]:
+          if pr not in res["native_probes"]:
+            res["native_probes"].append(pr)
       if p.outcome == "return" and p.value is not None and p.value.info.get("raised"):
         res["notes"].append("raised: " + p.value.info["raised"])
     clause_names = []
